@@ -30,6 +30,7 @@ func runC06(c *Ctx) {
 	arms := pairDeadlines(c, "DEADLINE", us)
 	c.R.Floor("DEADLINE", arms, 2)
 	c.R.Floor("ARMED", armedReads(c, "ARMED", us), 1)
+	narrowArith(c, "WIDTH", append(units(c.P, "component/sniffing/internal/quicutils", nil), us...), "sniffers and QUIC helpers")
 	c06Replay(c)
 	c06QuicParams(c)
 	c06NeedMore(c)
